@@ -136,3 +136,17 @@ def c20(ctx):
     ctx.outside += ['strings, sequences, maps and nested collections as pointee values', 'RwLock strategy for Deserialize (needs Default; same generic code)']
     seq_run(ctx, 'c20_ser', features=('serde',))
     seq_run(ctx, 'c20_de', features=('serde',))
+
+
+@prop('C15')
+def c15(ctx):
+    import kani_check
+    ctx.bounds.update({'pointer_kinds': ['Arc', 'Rc', 'Option<Arc>', 'Option<Rc>', 'sync::Weak', 'rc::Weak'],
+                       'pointee_types': ['u32', '() (zero sized)', '#[repr(align(64))] struct'],
+                       'count_states': 'unique / shared / with weak refs (kani::any); Weak: dangling / live / target dropped',
+                       'unwind': 3})
+    ctx.outside += ['nested Option<Option<..>> (not accepted by the trait)', 'allocation failure',
+                    'a container of Weak not keeping its target alive is checked by irsym (scenario c15_weak_container)']
+    ctx.notes.append('Kani 0.68 / CBMC 6.11 with unwinding assertions; std pointer types are the real ones')
+    ctx.add(kani_check.check(ctx))
+    seq_run(ctx, 'c15_weak_container', features=('weak',))
